@@ -4,6 +4,7 @@ CONSTANT Vals = {1, 2}
 CONSTANT Export = FALSE
 CONSTANT DeleteAbsentDropsLast = FALSE
 CONSTANT FilterRangesWhileDeleting = FALSE
+CONSTANT FilterDeletesBeforePanic = FALSE
 INVARIANT RefWellFormed
 INVARIANT SameItems
 INVARIANT SameLen
